@@ -105,6 +105,10 @@ func (sc *scen) doForm(mut, flavor string) *outcome {
 	txid := sc.nextTx
 	o := &outcome{kind: "form", mut: mut, mustReject: mut != "none"}
 	req := proto4.RPCFormContractRequest{Prices: hp, Contract: params, Basis: basis, MinerFee: txFee, RenterInputs: inputs, RenterParents: parents}
+	formTip := w.cm.Tip()
+	o.validate = func() error {
+		return req.Validate(w.hostKey.PublicKey(), formTip, w.set.MaxCollateral, w.set.MaxContractDuration)
+	}
 	csigTerm := ""
 	chain2 := mut != "bad-input-sig"
 	var second proto4.RPCFormContractSecondResponse
@@ -160,10 +164,10 @@ func (sc *scen) absRenewal(r types.V2FileContractRenewal) string {
 		z(r.RenterRollover), z(r.HostRollover), sc.absContract(r.NewContract))
 }
 
-var renewMuts = join([]string{"ren-height-low", "ren-too-long", "ren-allowance-zero", "ren-allowance-low", "ren-collateral-max",
+var renewMuts = join([]string{"ren-height-low", "ren-too-long", "ren-allowance-zero", "ren-allowance-low", "ren-collateral-max", "coll-edge-below", "coll-edge", "coll-edge-above", "coll-max-exact",
 	"ren-fee-zero", "underfunded", "rnsig-flip", "rnsig-other", "rcsig-flip", "rcsig-other", "abort-close", "bad-input-sig", "unknown-cid", "renewed-cid"}, ptMuts, chalMuts)
 
-var refreshMuts = join([]string{"ren-allowance-zero", "ren-allowance-low", "ren-collateral-max",
+var refreshMuts = join([]string{"ren-allowance-zero", "ren-allowance-low", "ren-collateral-max", "coll-edge-below", "coll-edge", "coll-edge-above", "coll-max-exact",
 	"ren-fee-zero", "underfunded", "rnsig-flip", "rnsig-other", "rcsig-flip", "rcsig-other", "abort-close", "bad-input-sig", "unknown-cid", "renewed-cid"}, ptMuts, chalMuts)
 
 // doRenewal plays renew (kind "renew") or refresh ("refresh-full", "refresh-partial").
@@ -178,6 +182,7 @@ func (sc *scen) doRenewal(kind, mut string) *outcome {
 	collateral := types.Siacoins(uint32(10 + sc.r.Intn(30)))
 	ph := max(existing.ProofHeight, tip+proto4.MinContractDuration) + 1 + uint64(sc.r.Intn(30))
 	txFee := fee
+	mustReject, edge := false, false
 	switch mut {
 	case "ren-height-low":
 		ph = existing.ProofHeight - uint64(sc.r.Intn(2))
@@ -194,6 +199,34 @@ func (sc *scen) doRenewal(kind, mut string) *outcome {
 		txFee = types.ZeroCurrency
 	case "underfunded":
 		allowance = types.Siacoins(700000)
+	case "coll-edge-below", "coll-edge", "coll-edge-above", "coll-max-exact":
+		// the collateral boundary of the host: what the *latest* revision already
+		// commits (risked collateral of the stored data for the new duration on a
+		// renewal, risked or total collateral on a refresh) plus the requested
+		// collateral may reach MaxCollateral and not exceed it
+		base := existing.TotalCollateral
+		switch kind {
+		case "renew":
+			base = hp.Collateral.Mul64(existing.Filesize).Mul64(ph + proto4.ProofWindow - hp.TipHeight)
+		case "refresh-partial":
+			base = existing.RiskedCollateral()
+		}
+		if ct == nil || base.Cmp(w.set.MaxCollateral) >= 0 {
+			mut = "none"
+			break
+		}
+		collateral = w.set.MaxCollateral.Sub(base)
+		switch mut {
+		case "coll-edge-below":
+			collateral = collateral.Sub(types.NewCurrency64(1))
+		case "coll-edge-above":
+			collateral = collateral.Add(types.NewCurrency64(1))
+		case "coll-max-exact":
+			collateral = w.set.MaxCollateral
+		}
+		allowance = proto4.MinRenterAllowance(hp, collateral).Add(types.Siacoins(uint32(10 + sc.r.Intn(20))))
+		mustReject = collateral.Add(base).Cmp(w.set.MaxCollateral) > 0
+		edge = true
 	}
 	var renewal types.V2FileContractRenewal
 	var renterCost, hostCost types.Currency
@@ -244,6 +277,19 @@ func (sc *scen) doRenewal(kind, mut string) *outcome {
 		r.Basis, r.RenterInputs, r.RenterParents, r.ChallengeSignature = basis, inputs, parents, chal
 	}
 	o := &outcome{kind: kind, mut: mut, ct: ct, mustReject: mut != "none"}
+	if edge {
+		o.mustReject = mustReject
+	}
+	// core's validation of this request against the latest revision and the host's settings
+	hostTip := w.cm.Tip()
+	switch r := req.(type) {
+	case *proto4.RPCRenewContractRequest:
+		o.validate = func() error {
+			return r.Validate(w.hostKey.PublicKey(), hostTip, existing, w.set.MaxCollateral, w.set.MaxContractDuration)
+		}
+	case *proto4.RPCRefreshContractRequest:
+		o.validate = func() error { return r.Validate(w.hostKey.PublicKey(), hostTip, existing, w.set.MaxCollateral, partial) }
+	}
 	chain2 := mut != "bad-input-sig"
 	sigsTerm := "None"
 	var hostInputs []types.V2SiacoinInput
